@@ -232,3 +232,177 @@ Theorem live_cursor_refuted :
     <> filter (fun kv => negb (mem (fst kv) (map fst (Rsel (fun _ => true) (PScan SFull) d)))) d.
 Proof. exact live_cursor_refuted_lemma. Qed.
 Print Assumptions live_cursor_refuted.
+
+(* ============================================================================================
+   FROM THE QUERY TEXT.  Model/PipelineW.v [delete_text] is the twin of
+   kvql.NewOptimizer(q).BuildPlan(store) at PlanBatchSize = B, polled until nil, for DELETE: lexer,
+   statement parser (parseDelete + parseLimit: pure syntax), Check + Boolean WHERE,
+   function-call check, constant folding of the WHERE tree (optimizeDeleteExpressions), region
+   inference AND the RemovePlan-shortcut test (no AND) on the FOLDED tree, LIMIT, then
+   Delete.build_delete / Delete.run_delete as above -- in the order of optimizer.go.  Corr/C11.v
+   ([KText] cases) compares it with the implementation on every run: accepted / rejected and
+   error position, the plan that was built, write calls, final state.
+   [parsed_text fo is_delete_kind q = TOk (StDelete p wp P lim)]: the parser twin reads q as
+   `delete where P [limit ..]`, P being the tree the parser returns, unchecked and UNFOLDED;
+   [limit_of lim = Some limit]: its LIMIT as (offset, count) (None = no LIMIT).                  *)
+From Coq Require Import ZArith.
+From KV Require Import Model.Value Model.Eval Model.StmtParser Model.Pipeline Model.PipelineW
+                       Spec.Sem Proofs.LinkProofs Proofs.SelectStarProofs Proofs.FoldProofs
+                       Proofs.PipelineProofs Proofs.PipelineWProofs.
+
+(* END TO END FROM THE TEXT.  For every float structure, regexp oracle pair (assumed to agree),
+   float formatter that re-parses to the same float (fmt "%v"), DELETE text q, store d and batch
+   size: if the parser twin reads q as `delete where P [limit]`, d is strictly sorted by key,
+   P is evaluable on every stored pair under the reference semantics Spec/Sem.v, every
+   re-association of a float chain the folder performs on P is exact on the stored pairs (C04's
+   premise; vacuous without float operands in + / * chains), the batch size is >= 1 and the
+   pipeline accepts the text, THEN the final store is the prior store minus exactly the keys of
+     sel = the stored pairs on which the reference semantics of the PARSED, UNFOLDED tree is
+           true, in key order, sliced firstn count (skipn offset _) by the LIMIT
+   (what `select * where P [limit]` denotes: select_text_exact, C08's slice), every other key
+   keeps its value, the store stays sorted, nothing is put, every selected key is deleted, and a
+   deleted key that was stored is a selected key (the RemovePlan shortcut also hands listed keys
+   that are not stored to Delete / BatchDelete) *)
+Theorem delete_text_exact :
+  forall (fo : fops) (re_match : bytes -> bytes -> Value.res bool) (re_spec : bytes -> bytes -> option bool)
+         (fmt_v : F fo -> string),
+  (forall p t b, re_spec p t = Some b -> re_match p t = Value.Ok b) ->
+  (forall f, f_parse fo (fmt_v f) = PF_ok f) ->
+  forall (q : string) (p wp : nat) (P : expr) (lim : option limit_t) (limit : option (nat * nat))
+         (B : nat) (d : store),
+  parsed_text fo is_delete_kind q = TOk (StmtParser.StDelete p wp P lim) ->
+  limit_of lim = Some limit ->
+  1 <= B ->
+  ssorted d ->
+  (forall kv, In kv d -> evaluable fo re_spec P kv) ->
+  (forall kv, In kv d -> reassoc_exact fo re_match fmt_v P (fst kv) (snd kv)) ->
+  forall (dp : dplan) (s' : sstate),
+  delete_text fo re_match fmt_v q B (sinit d None) = (TOk dp, s') ->
+  let sel := limit_slice limit (filter (selects fo re_spec P) d) in
+  sdata s' = filter (fun kv => negb (mem (fst kv) (map fst sel))) d /\
+  (forall k, sget k (sdata s') = if mem k (map fst sel) then None else sget k d) /\
+  ssorted (sdata s') /\
+  forallb no_put (slog s') = true /\
+  (forall k, In k (map fst sel) -> In k (deleted_keys (slog s'))) /\
+  (forall k, In k (deleted_keys (slog s')) -> In k (map fst d) -> In k (map fst sel)).
+Proof. exact delete_text_exact_lemma. Qed.
+Print Assumptions delete_text_exact.
+
+(* nothing is touched if the text is not accepted (rejected with a position, or outside the model) *)
+Theorem delete_text_not_accepted_untouched :
+  forall (fo : fops) (re_match : bytes -> bytes -> Value.res bool) (fmt_v : F fo -> string)
+         (q : string) (B : nat) (s : sstate) (r : tres dplan) (s' : sstate),
+  delete_text fo re_match fmt_v q B s = (r, s') -> (forall dp, r <> TOk dp) -> s' = s.
+Proof. exact delete_text_not_accepted_untouched_lemma. Qed.
+Print Assumptions delete_text_not_accepted_untouched.
+
+(* the layer the composition needed beyond delete_exact / delete_shortcut_premise: buildDeletePlan
+   and the run for ANY per-pair verdict and ANY tree the plan is built from, provided that on the
+   stored pairs the inferred region covers what the verdict accepts and, when the tree qualifies
+   for the shortcut, the verdict is "the key is listed" *)
+Theorem build_delete_exact :
+  forall (flt : kvp -> bool) (e : expr) (B fuel : nat) (d : store),
+  1 <= B -> ssorted d ->
+  (forall kv, In kv d -> flt kv = true -> covers (optimize e) (fst kv) = true) ->
+  (has_and e = false -> forall ks, optimize e = RMget ks -> forall kv, In kv d -> flt kv = mem (fst kv) ks) ->
+  forall limit : option (nat * nat),
+  List.length d + dplan_nkeys (build_delete e limit) + 2 <= fuel ->
+  delete_facts d (limit_slice limit (filter flt d)) (run_delete flt B fuel (build_delete e limit) (sinit d None)).
+Proof. exact build_delete_facts. Qed.
+Print Assumptions build_delete_exact.
+
+(* ------------------------------------------------------------------ non-vacuity (float-free,
+   for every float structure) *)
+Local Open Scope string_scope.
+
+(* scan-and-delete under LIMIT, with a constant call that is folded before the region is
+   inferred: the parsed tree compares key with lower('A') (no prefix scan could be planned for
+   it); the plan is DeletePlan over LimitPlan over the prefix scan of "a"; the premises hold for
+   the PARSED tree; the pairs deleted are those the reference semantics of the parsed tree
+   selects, sliced by the LIMIT *)
+Definition ex_dtext : string := "delete where key ^= lower('A') & value = 'x' limit 1, 2".
+Definition ex_dtree : expr :=
+  EBin 31 OAnd (EBin 17 OPrefixMatch (EField 13 KeyKW) (ECall 20 (EName 20 "lower") [EStr 26 "A"]))
+               (EBin 39 OEq (EField 33 ValueKW) (EStr 41 "x")).
+
+Example delete_text_exact_nonvacuous :
+  forall (fo : fops) (re_match : bytes -> bytes -> Value.res bool) (re_spec : bytes -> bytes -> option bool)
+         (fmt_v : F fo -> string),
+    parsed_text fo is_delete_kind ex_dtext = TOk (StmtParser.StDelete 0 7 ex_dtree (Some (Limit 45 1%Z 2%Z))) /\
+    limit_of (Some (Limit 45 1%Z 2%Z)) = Some (Some (1, 2)) /\
+    ssorted ex_store /\
+    (forall kv, In kv ex_store -> evaluable fo re_spec ex_dtree kv) /\
+    (forall kv, In kv ex_store -> reassoc_exact fo re_match fmt_v ex_dtree (fst kv) (snd kv)) /\
+    limit_slice (Some (1, 2)) (filter (selects fo re_spec ex_dtree) ex_store) = [("abc","x"); ("ac","x")] /\
+    delete_text fo re_match fmt_v ex_dtext 1 (sinit ex_store None)
+    = (TOk (DScan (PLimit 1 2 (PScan (SPrefix "a")))),
+       SState [("a","x"); ("ab","y"); ("b","x"); ("ba","x")]
+              [CCursor; CSeek "a"; CCursor; CSeek "a"; CNext (Some "a"); CNext (Some "ab");
+               CNext (Some "abc"); CBatchDelete ["abc"]; CNext (Some "ac"); CBatchDelete ["ac"]]
+              None).
+Proof.
+  intros fo re_match re_spec fmt_v.
+  split; [vm_compute; reflexivity|].
+  split; [reflexivity|].
+  split; [cbn; auto 10|].
+  split.
+  { intros kv Hin. cbn [In ex_store] in Hin.
+    destruct Hin as [<-|[<-|[<-|[<-|[<-|[<-|[]]]]]]]; eexists; vm_compute; reflexivity. }
+  split.
+  { intros kv Hin. cbn [In ex_store] in Hin.
+    destruct Hin as [<-|[<-|[<-|[<-|[<-|[<-|[]]]]]]]; reassoc_close fo re_match fmt_v ex_dtree. }
+  split; vm_compute; reflexivity.
+Qed.
+
+(* the RemovePlan shortcut from the text: no AND, no LIMIT, and the literal concatenation is folded
+   BEFORE the region is inferred, so the filter is a key list; the listed key "zz" is not stored
+   and is handed to BatchDelete all the same *)
+Definition ex_stext : string := "delete where key in ('b', 'zz') | key = 'a' + 'b'".
+Definition ex_stree : expr :=
+  EBin 32 OOr (EBin 17 OIn (EField 13 KeyKW) (EList 17 [EStr 21 "b"; EStr 26 "zz"]))
+              (EBin 38 OEq (EField 34 KeyKW) (EBin 44 OAdd (EStr 40 "a") (EStr 46 "b"))).
+
+Example delete_text_shortcut_nonvacuous :
+  forall (fo : fops) (re_match : bytes -> bytes -> Value.res bool) (re_spec : bytes -> bytes -> option bool)
+         (fmt_v : F fo -> string),
+    parsed_text fo is_delete_kind ex_stext = TOk (StmtParser.StDelete 0 7 ex_stree None) /\
+    (forall kv, In kv ex_store -> evaluable fo re_spec ex_stree kv) /\
+    (forall kv, In kv ex_store -> reassoc_exact fo re_match fmt_v ex_stree (fst kv) (snd kv)) /\
+    filter (selects fo re_spec ex_stree) ex_store = [("ab","y"); ("b","x")] /\
+    delete_text fo re_match fmt_v ex_stext 2 (sinit ex_store None)
+    = (TOk (DRemove ["ab"; "b"; "zz"]),
+       SState [("a","x"); ("abc","x"); ("ac","x"); ("ba","x")] [CBatchDelete ["ab"; "b"; "zz"]] None).
+Proof.
+  intros fo re_match re_spec fmt_v.
+  split; [vm_compute; reflexivity|].
+  split.
+  { intros kv Hin. cbn [In ex_store] in Hin.
+    destruct Hin as [<-|[<-|[<-|[<-|[<-|[<-|[]]]]]]]; eexists; vm_compute; reflexivity. }
+  split.
+  { intros kv Hin. cbn [In ex_store] in Hin.
+    destruct Hin as [<-|[<-|[<-|[<-|[<-|[<-|[]]]]]]]; reassoc_close fo re_match fmt_v ex_stree. }
+  split; vm_compute; reflexivity.
+Qed.
+
+(* the shapes that just do not qualify: a LIMIT, or an AND that survives folding, keep the
+   scan-and-delete plan over the point reads; an AND that is folded away does not *)
+Example delete_text_shortcut_boundary_example :
+  forall (fo : fops) (re_match : bytes -> bytes -> Value.res bool) (fmt_v : F fo -> string),
+    fst (delete_text fo re_match fmt_v "delete where key = 'a'" 2 (sinit ex_store None)) = TOk (DRemove ["a"]) /\
+    fst (delete_text fo re_match fmt_v "delete where key = 'a' limit 5" 2 (sinit ex_store None))
+      = TOk (DScan (PLimit 0 5 (PScan (SMget ["a"])))) /\
+    fst (delete_text fo re_match fmt_v "delete where key = 'a' & value = 'x'" 2 (sinit ex_store None))
+      = TOk (DScan (PScan (SMget ["a"]))) /\
+    fst (delete_text fo re_match fmt_v "delete where key = 'a' & 1 = 1" 2 (sinit ex_store None)) = TOk (DRemove ["a"]).
+Proof. intros. repeat split; vm_compute; reflexivity. Qed.
+
+(* texts the front end rejects, with the position of the SyntaxError: a WHERE clause that is not
+   Boolean, an aggregate function (found by checkStatementFunctionCalls after Parse), tokens after
+   the LIMIT, a LIMIT without parameters at the end of the text (-1) *)
+Example delete_text_rejects_example :
+  forall (fo : fops) (re_match : bytes -> bytes -> Value.res bool) (fmt_v : F fo -> string) (s : sstate),
+    delete_text fo re_match fmt_v "delete where key" 2 s = (TReject 13%Z, s) /\
+    delete_text fo re_match fmt_v "delete where count(key) > 0" 2 s = (TReject 13%Z, s) /\
+    delete_text fo re_match fmt_v "delete where key = 'a' limit 1 order by key" 2 s = (TReject 31%Z, s) /\
+    delete_text fo re_match fmt_v "delete where key = 'a' limit" 2 s = (TReject (-1)%Z, s).
+Proof. intros. repeat split; vm_compute; reflexivity. Qed.
